@@ -326,7 +326,10 @@ class GenEval:
         if v in self.focus:
             return True
         if self.field_loops_focus:
-            if isinstance(v, LoopVar) and v.role == 'val' and isinstance(v.loop.space, (ItemsSp, ValuesSp)):
+            sp = v.loop.space if isinstance(v, LoopVar) else None
+            while isinstance(sp, Wrapped):
+                sp = sp.space
+            if isinstance(v, LoopVar) and v.role == 'val' and isinstance(sp, (ItemsSp, ValuesSp)):
                 return True
             if isinstance(v, Sub) and isinstance(unlin(v.idx), LoopVar) and unlin(v.idx).role == 'key' \
                     and isinstance(unlin(v.idx).loop.space, KeysSp) and unlin(v.idx).loop.space.d == v.v:
